@@ -2,6 +2,12 @@
 pub mod shapes;
 pub mod algo;
 pub mod store;
+pub mod graph;
+pub mod vis;
+pub mod feat;
+pub mod generic;
+pub mod mac;
+pub mod cfgd;
 
 pub const SCALE: u32 = 7;
 pub const ORIGIN: shapes::Point = shapes::Point { x: 0, y: 0 };
